@@ -161,8 +161,19 @@ def cal_side(ctx, tier, only=None):
     cfgs = [c for c in calcfg.configs(tier) if not only or only in c.name]
     jobs = [{'id': c.name, 'tier': tier} for c in cfgs]
     results = calrun.run_jobs(calflow.cal_worker, jobs, par=max(1, core.NCPU - 1), timeout=600 if tier == 'quick' else 3000, mem_gb=10)
+    # apply on a selection of the calibration's frequency points (1-port types; 2-port systems with symbolic terms at 3 frequencies do not finish)
+    gjobs = [{'id': 'applygrid-%s-%s' % (calflow.NAMES[t], g), 'type': t, 'n': 1, 'grid': g} for t in (calflow.T8, calflow.U8, calflow.TE10, calflow.UE10) for g in calflow.APPLY_GRIDS]
+    gjobs = [j for j in gjobs if not only or only in j['id']]
+    gres = calrun.run_jobs(calflow.apply_grid_worker, gjobs, par=max(1, core.NCPU - 1), timeout=600, mem_gb=8) if gjobs else []
     native = calrun.Native(ctx)
     viol = []
+    for r, j in zip(gres, gjobs):
+        if r.get('error') or not (r.get('fault') or r.get('sat')): continue
+        what = ('memory fault / abort in the symbolic run of the real code: ' + r['fault']) if r.get('fault') else ' ;; '.join('%s %s' % (x.get('q'), str(x.get('model', x.get('detail')))[:200]) for x in r['sat'][:4])
+        rd = os.path.join(core.VERIF, 'evidence', 'replay', 'C01_' + re.sub(r'\W+', '_', r['id']))
+        ok, how, outp = native.confirm(calflow.apply_grid_native(j), rd, fault=r.get('fault'))
+        json.dump({'property': 'C01', 'job': j, 'what': what, 'native': how}, open(os.path.join(rd, 'cex.json'), 'w'), indent=1, default=str)
+        viol.append({'id': r['id'], 'what': what, 'replay': rd, 'confirmed': ok, 'how': how})
     byname = {c.name: c for c in cfgs}
     for r in results:
         if r.get('error'): continue
@@ -176,7 +187,7 @@ def cal_side(ctx, tier, only=None):
         ok, how, outp = native.confirm(calflow.native_program(byname[r['id']]), rd, fault=r.get('fault'))
         json.dump({'property': 'C01', 'config': r['id'], 'what': whats, 'native': how, 'sat': r.get('sat'), 'fault': r.get('fault')}, open(os.path.join(rd, 'cex.json'), 'w'), indent=1, default=str)
         viol.append({'id': r['id'], 'what': ' ;; '.join(whats), 'replay': rd, 'confirmed': ok, 'how': how})
-    return results, viol
+    return results + gres, viol
 
 
 def run(tier, only=None):
